@@ -3879,11 +3879,13 @@ class Kconfig(object):
                 depend_on(sym, high)
                 depend_on(sym, cond)
 
-            for _, cond, source in sym.rev_values:
+            for value, cond, source in sym.rev_values:
+                depend_on(sym, value)
                 depend_on(sym, cond)
                 depend_on(sym, source)
 
-            for _, cond, source in sym.weak_rev_values:
+            for value, cond, source in sym.weak_rev_values:
+                depend_on(sym, value)
                 depend_on(sym, cond)
                 depend_on(sym, source)
 
